@@ -3,8 +3,10 @@
 # property's check and records whether it is caught. Output: /verif/detection_matrix.tsv
 # optional argument: a property id (e.g. C12) -- only its changes are re-run and their rows replaced
 ONLY=${1:-}
+# "missing" = only the changes that have no row yet
+MISSING=0; if [ "$ONLY" = "missing" ]; then MISSING=1; ONLY=""; fi
 OUT=/verif/detection_matrix.tsv
-if [ -n "$ONLY" ]; then grep -v -P "\t$ONLY\t" $OUT > $OUT.tmp; mv $OUT.tmp $OUT; else echo -e "change\tproperty\tresult\tviolation_signatures" > $OUT; fi
+if [ $MISSING = 1 ]; then :; elif [ -n "$ONLY" ]; then grep -v -P "\t$ONLY\t" $OUT > $OUT.tmp; mv $OUT.tmp $OUT; else echo -e "change\tproperty\tresult\tviolation_signatures" > $OUT; fi
 for f in /verif/seeded/*/patch.diff /verif/mutations/*.patch; do
   case "$f" in
     */seeded/*) name=$(basename $(dirname $f));;
@@ -12,6 +14,7 @@ for f in /verif/seeded/*/patch.diff /verif/mutations/*.patch; do
   esac
   P=${name:0:3}
   if [ -n "$ONLY" ] && [ "$P" != "$ONLY" ]; then continue; fi
+  if [ $MISSING = 1 ] && grep -q -P "^$name\t" $OUT; then continue; fi
   cd /repo
   export APPLY_OPTS=""
   if ! git apply --check "$f" 2>/dev/null; then
